@@ -267,8 +267,50 @@ def fresh_copy(o: Any) -> Any:
     return c
 
 
+_SITES_MEMO: Dict[int, List[R.Site]] = {}
+
+
 def all_sites(root: Any) -> List[R.Site]:
-    return list(R.walk(root))
+    """Sites of the graph as it was when first asked for (donor search only; cleared per perturbation)."""
+    if id(root) not in _SITES_MEMO:
+        _SITES_MEMO[id(root)] = list(R.walk(root))
+    return _SITES_MEMO[id(root)]
+
+
+def normalize_docfrags(root: Any) -> int:
+    """Make the document fragments of IDs and of implicit references (no DOCREF) name the document / layer they are in.
+    A no-op on a freshly loaded database (guarded); needed after an element was copied from another layer or a layer renamed."""
+    from odxtools.odxlink import DocType, OdxDocFragment
+    changes = 0
+
+    def fix(s: R.Site, frags: List[Any]) -> int:
+        if s.attr == "doc_fragments" and R.is_link(s.holder):
+            if list(s.value) != frags:
+                object.__setattr__(s.holder, "doc_fragments", list(frags))
+                return 1
+        elif s.attr == "ref_docs" and R.is_link(s.holder) and isinstance(s.value, list):
+            implicit = len(s.value) == 2 or (len(frags) == 1 and len(s.value) == 1 and s.value[0].doc_type == frags[0].doc_type and False)
+            if implicit and list(s.value) != frags:
+                object.__setattr__(s.holder, "ref_docs", list(frags))
+                return 1
+        return 0
+
+    for c in root["diag_layer_containers"]:
+        cf = OdxDocFragment(c.short_name, DocType.CONTAINER)
+        layers = [lw for f in ("ecu_shared_datas", "protocols", "functional_groups", "base_variants", "ecu_variants") for lw in getattr(c, f)]
+        for lw in layers:
+            frags = [cf, OdxDocFragment(lw.diag_layer_raw.short_name, DocType.LAYER)]
+            for s in R.walk(lw):
+                changes += fix(s, frags)
+        seen = {id(lw) for lw in layers}
+        for s in R.walk(c, (), seen):
+            changes += fix(s, [cf])
+    for key, dt in (("comparam_subsets", DocType.COMPARAM_SUBSET), ("comparam_specs", DocType.COMPARAM_SPEC)):
+        for d in root[key]:
+            frags = [OdxDocFragment(d.short_name, dt)]
+            for s in R.walk(d):
+                changes += fix(s, frags)
+    return changes
 
 
 def choice_siblings(owner: Any, field: str) -> List[str]:
@@ -428,6 +470,9 @@ def apply_perturbation(db: Any, root: Any, s: R.Site, kind: str, path: Sequence[
         return R._short(new)
     if kind == "grow":
         new = grown_element(db, root, s)
+        rt = {"positive_responses": "POS-RESPONSE", "negative_responses": "NEG-RESPONSE", "global_negative_responses": "GLOBAL-NEG-RESPONSE"}.get(attr)
+        if rt is not None and hasattr(new, "response_type"):
+            new.response_type = type(new.response_type)(rt)  # the list an element is in IS its response type
         old.append(new)
         return "appended " + R._short(new)
     new = R.perturbed(old, kind)
@@ -598,6 +643,19 @@ class Outcome:
         self.stage = "ok"
         self.db1: Any = None
         self.members: Optional[Dict[str, bytes]] = None
+        self.reason = ""
+
+
+DERIVED_CLASSES = {"physical_type": ("CompuMethod",), "internal_type": ("CompuMethod",), "domain_type": ("CompuScale",), "range_type": ("CompuScale",),
+                   "value_type": ("Limit", "InternalConstr", "ScaleConstr", "CompuRationalCoeffs"), "data_type": ("CompuConst", "CompuDefaultValue"),
+                   "table_ref": ("TableRow",)}
+
+
+def is_derived(cls: str, field: str) -> bool:
+    first = field.split(".")[0]
+    if field.endswith("doc_fragments") or ".doc_fragments." in field:
+        return True
+    return first in DERIVED_CLASSES and any(cls == c or cls.endswith(c) for c in DERIVED_CLASSES[first])
 
 
 def diff_mode(d: R.Diff, meta_pair: Optional[str]) -> str:
@@ -615,7 +673,7 @@ def judge(db: Any, pert: Optional[Dict[str, Any]], with_behaviour_of_original: b
     pair = pert["pair"] if pert else None
     kind = pert["kind"] if pert else None
     crash_pair = pair or "baseline"
-    meta = kind == "meta" or (kind in ("set", "grow") and pert is not None and R.META in pert.get("new", ""))
+    meta = kind == "meta" or (kind in ("set", "grow") and pert is not None and "a&b<c>" in pert.get("new", ""))
     root = root_of(db)
     try:
         m = write_members(db)
@@ -624,6 +682,7 @@ def judge(db: Any, pert: Optional[Dict[str, Any]], with_behaviour_of_original: b
         out.findings.append((f"C11/{crash_pair}/crash", f"write_pdx_file raised {type(e).__name__}: {str(e)[:300]}"))
         return out
     out.members = m
+    strict_error: Optional[Exception] = None
     try:
         db1 = load_from_members(m)
     except ElementTree.ParseError as e:
@@ -633,35 +692,64 @@ def judge(db: Any, pert: Optional[Dict[str, Any]], with_behaviour_of_original: b
         out.findings.append((f"C11/{crash_pair}/{mode}", f"written document {bad} is not well-formed XML: {e}"))
         return out
     except Exception as e:
-        out.stage = "load"
-        out.findings.append((f"C11/{crash_pair}/crash", f"loading the written PDX raised {type(e).__name__}: {str(e)[:300]}"))
-        return out
+        # Is the written document unfaithful, or does the parser reject a faithfully written (inconsistent) database?
+        # Load it again leniently (odxtools.exceptions.strict_mode = False) and compare.
+        strict_error = e
+        import odxtools.exceptions as ex
+        old_mode = ex.strict_mode
+        ex.strict_mode = False
+        try:
+            db1 = load_from_members(m)
+        except Exception as e2:
+            out.stage = "load"
+            out.findings.append((f"C11/{crash_pair}/crash", f"loading the written PDX raised {type(e).__name__}: {str(e)[:300]} "
+                                                           f"(and {type(e2).__name__} with strict_mode off)"))
+            return out
+        finally:
+            ex.strict_mode = old_mode
     out.db1 = db1
     root1 = root_of(db1)
     diffs = R.diff(root, root1)
-    tolerate_typed = pert is not None and pert["pair"].endswith(".base_data_type")
     for d in diffs:
-        if tolerate_typed:
-            leaf = d.field.split(".")[-1]
-            if (leaf in DERIVED and d.pair != pair) or any(d.pair == f"{c}.{f}" for c, f in TYPED_BY_BASE_TYPE):
-                continue
+        if pert is not None and is_derived(d.cls, d.field):
+            continue  # a function of other fields that the perturbation did not keep in step
+        if pert is not None and pert["pair"].endswith(".base_data_type") and any(d.pair == f"{c}.{f}" for c, f in TYPED_BY_BASE_TYPE):
+            continue
         mode = diff_mode(d, pair if meta else None)
         out.findings.append((f"C11/{d.pair}/{mode}", f"at {list(d.path)}: wrote {d.a} -- loaded back {d.b}"))
+    if strict_error is not None:
+        e = strict_error
+        if pert is None:
+            out.stage = "load"
+            out.findings.append((f"C11/{crash_pair}/crash", f"loading the written PDX raised {type(e).__name__}: {str(e)[:300]}; loaded with strict_mode off "
+                                                           f"it differs in {sorted({k for k, _ in out.findings})[:6]}"))
+        elif out.findings:
+            out.stage = "load"
+            out.findings = [(k, d + f" [strict load raised {type(e).__name__}: {str(e)[:120]}]") for k, d in out.findings]
+        else:
+            out.stage = "inadmissible"
+            out.reason = f"the parser rejects the faithfully written document ({type(e).__name__}: {str(e)[:100]})"
+        return out
     eq = all(a == b for k in root for a, b in zip(root[k], root1[k])) and all(len(root[k]) == len(root1[k]) for k in root)
     if eq and diffs:
         pass  # the field-wise comparison is at least as strict as dataclass equality (bool vs int)
     if not eq and not diffs:
         out.findings.append(("C11/unlocalised/altered", "dataclass equality of the top-level objects fails but no field differs"))
-    # second write: byte-identical ODX members, and the database loaded from it is the same again
+    # second write: byte-identical ODX members (then loading it again gives the same database: loader determinism is part (c))
     try:
         m2 = write_members(db1)
-        db2 = load_from_members(m2)
     except Exception as e:
         out.stage = "rewrite"
-        out.findings.append((f"C11/{crash_pair}/crash", f"writing / loading the RELOADED database raised {type(e).__name__}: {str(e)[:300]}"))
+        out.findings.append((f"C11/{crash_pair}/crash", f"writing the RELOADED database raised {type(e).__name__}: {str(e)[:300]}"))
         return out
     changed = sorted(n for n in m if is_odx(n) and m2.get(n) != m[n]) + sorted(n for n in m2 if is_odx(n) and n not in m)
     if changed:
+        try:
+            db2 = load_from_members(m2)
+        except Exception as e:
+            out.stage = "rewrite"
+            out.findings.append((f"C11/{crash_pair}/crash", f"loading the second write raised {type(e).__name__}: {str(e)[:300]}"))
+            return out
         d2 = R.diff(root1, root_of(db2))
         if d2:
             for d in d2:
@@ -669,12 +757,11 @@ def judge(db: Any, pert: Optional[Dict[str, Any]], with_behaviour_of_original: b
         elif not diffs:
             out.findings.append((f"C11/rewrite/{os.path.splitext(changed[0])[1].lstrip('.')}/altered",
                                  f"second write differs in {changed}: {first_difference(m[changed[0]] if changed[0] in m else b'', m2.get(changed[0], b''))}"))
-    b1 = behaviour(db1)
-    bd = behaviour_diff(b1, behaviour(db2))
-    if bd:
-        out.findings.append(bd)
+        bd = behaviour_diff(behaviour(db1), behaviour(db2))
+        if bd:
+            out.findings.append(bd)
     if with_behaviour_of_original:
-        bd = behaviour_diff(behaviour(db), b1)
+        bd = behaviour_diff(behaviour(db), behaviour(db1))
         if bd:
             out.findings.append(bd)
     return out
@@ -739,23 +826,43 @@ def enumerate_units(base: str, off: Sequence[str]) -> Tuple[List[Tuple[str, str,
     return todo, na
 
 
-def candidate_paths(root: Any, cls: str, field: str, kind: str) -> List[Tuple[Any, ...]]:
-    out = []
-    for s in R.walk(root):
-        if s.cls == cls and s.field == field and any(k == kind and why is None for k, why in site_kinds(s)):
-            out.append(s.path)
-    return out
+_CAND: Dict[str, Dict[Tuple[str, str, str], List[Tuple[Any, ...]]]] = {}
+
+
+def candidate_paths(base: str, off: Sequence[str], cls: str, field: str, kind: str) -> List[Tuple[Any, ...]]:
+    k = base + "|" + ",".join(off)
+    if k not in _CAND:
+        table: Dict[Tuple[str, str, str], List[Tuple[Any, ...]]] = {}
+        for s in R.walk(root_of(load_base(base, off))):
+            for kd, why in site_kinds(s):
+                if why is None:
+                    table.setdefault((s.cls, s.field, kd), []).append(s.path)
+        _CAND[k] = table
+    return _CAND[k].get((cls, field, kind), [])
 
 
 def site_at(root: Any, path: Sequence[Any]) -> Optional[R.Site]:
-    for s in R.walk(root):
-        if tuple(s.path) == tuple(path):
-            return s
-    return None
+    try:
+        obj: Any = root
+        owner: Any = None
+        owner_idx = 0
+        for i, step in enumerate(path[:-1]):
+            obj = obj[step] if (isinstance(step, int) or isinstance(obj, dict)) else getattr(obj, step)
+            if R.is_dc(obj) and not R.is_link(obj):
+                owner, owner_idx = obj, i + 1
+        holder, attr = obj, path[-1]
+        if owner is None or not isinstance(attr, str):
+            return None
+        fname = path[owner_idx]
+        field = fname if holder is owner else f"{fname}.{attr}"
+        return R.Site(tuple(path), owner, R.cname(owner), field, getattr(holder, attr), holder, attr)
+    except (AttributeError, IndexError, KeyError, TypeError):
+        return None
 
 
 def run_perturbation(base: str, off: Sequence[str], path: Sequence[Any], kind: str) -> Tuple[str, List[Tuple[str, str]], str]:
     """-> (status, findings, description). status: 'run' | 'skip:<reason>'"""
+    _SITES_MEMO.clear()
     db = load_base(base, off)
     root = root_of(db)
     s = site_at(root, path)
@@ -770,6 +877,8 @@ def run_perturbation(base: str, off: Sequence[str], path: Sequence[Any], kind: s
     import odxtools.exceptions as ex
     old_mode = ex.strict_mode
     try:
+        if kind in ("set", "grow") or s.attr == "short_name":
+            normalize_docfrags(root)
         db.refresh()
     except Exception as e:
         return f"skip:perturbed database is not self-consistent (refresh() raises {type(e).__name__})", [], new
@@ -777,6 +886,8 @@ def run_perturbation(base: str, off: Sequence[str], path: Sequence[Any], kind: s
         ex.strict_mode = old_mode
     pair = f"{s.cls}.{s.field}"
     out = judge(db, {"pair": pair, "kind": kind, "path": list(path), "new": new}, False)
+    if out.stage == "inadmissible":
+        return "skip:" + out.reason, [], new
     known = baseline_keys(base, off)
     findings = [(k, d) for k, d in out.findings if k not in known]
     # the perturbed field itself must come back
@@ -796,8 +907,7 @@ def perturb_unit(unit: Tuple[str, Tuple[str, ...], str, str, str]) -> Part:
     base, off, cls, field, kind = unit
     part = Part()
     install_template_cache()
-    root = root_of(load_base(base, off))
-    paths = candidate_paths(root, cls, field, kind)
+    paths = candidate_paths(base, off, cls, field, kind)
     pair = f"{cls}.{field}"
     last = "skip:no instance"
     for path in paths[:MAXCAND]:
@@ -830,6 +940,7 @@ def baseline_unit(unit: Tuple[str, Tuple[str, ...]]) -> Part:
     part = Part()
     install_template_cache()
     db = load_base(base, off)
+    part.add("normalize_changes_on_fresh_base", (base, normalize_docfrags(root_of(db))))
     out = judge(db, None, True)
     part.count("evaluations")
     part.count("baselines")
@@ -1026,6 +1137,8 @@ def run(ctx: Ctx) -> None:
     bases = [("ks", off), ("somersault", ()), ("somersault_modified", ())]
     pmap(ctx, baseline_unit, bases)
     stages = dict(ctx.sets.pop("baseline_stage", set()))
+    ctx.guard("document-fragment normalisation is a no-op on freshly loaded databases",
+              all(n == 0 for _, n in ctx.sets.pop("normalize_changes_on_fresh_base", {("?", 1)})))
     if stages.get("ks") != "ok":
         ctx.caps.append("the kitchen-sink database without the blocking features still does not survive the round trip: perturbations on it were not run")
 
